@@ -386,8 +386,11 @@ def run():
             ck.count("id-load-bounds", p + "|" + kind + "|" + what)
             b = base_of[p]
             if what == "max/2":
-                good = ("ok" in a and a.get("ok") == b.get("ok")) or ("ok" not in b and "panic" not in a and "abort" not in a)
-                exp = "the same SQL as with small ids"
+                kind_of = lambda x: next((k for k in ("ok", "err", "panic") if k in x), "other")
+                # same outcome as with small ids: the same SQL, or the same kind of failure (an `err`, or one of the back-end
+                # panics that are C12's subject and occur with small ids as well)
+                good = kind_of(a) == kind_of(b) and a.get("ok") == b.get("ok") and (a.get("panic") or {}).get("loc") == (b.get("panic") or {}).get("loc")
+                exp = "the same outcome as with small ids"
             else:
                 reasons = " | ".join(e.get("reason", "") for e in a.get("err", [])) if "err" in a else ""
                 good = "too large" in reasons
